@@ -165,6 +165,7 @@ func (p c19) runCounter(sc *C19Scenario) harness.Outcome {
 	evictions := 0
 	for i, op := range sc.Ops {
 		cur := contentAfter(sc.Cap, sc.Ops[:i+1])
+		simrt.Progress.Add(1)
 		probes["c19.prefixes"]++
 		fail := func(clause, f string, a ...interface{}) {
 			v = &simrt.Violation{Clause: clause, Detail: fmt.Sprintf("capacity %d, after operation %d (%s) of %v: ", sc.Cap, i, opName(op), opsHead(sc.Ops, i)) + fmt.Sprintf(f, a...) + fmt.Sprintf("; before: %v, after: %v", prev, cur)}
